@@ -99,6 +99,17 @@ def gen_case(rng, cid, two, per):
             cmds.append(['evalstr', '111', f'(step {t} {-start[t]})' if two else f'(step {-start[t]})'])
         checks.append({'kind': kind, 'base': base, 'wbase': wbase, 'steps': steps, 'refpos': refpos, 'c': c,
                        'start': [start[t] for t in tids]})
+    # count is the length of find also when the condition mentions user variables, whatever they are called
+    if not xz and not two:
+        names_ = ['n', 'i', 'c', 'cnt', 'm', 'acc2', 'x', 'tmp', 'idx', 'res', 'l', 'k']
+        nm = names_[cid % len(names_)]
+        thr = rng.randrange(0, 6)
+        sg = fr.sig()
+        cmds.append(['evalstr', '111', f'(define {nm} {thr})'])
+        cmp_ = rng.choice(['>', '<', '=', '>='])
+        base = len(cmds)
+        cmds.append(['evalstr', '111', f'(list (count ({cmp_} {sg} {nm})) (length (find ({cmp_} {sg} {nm}))) {nm})'])
+        checks.append({'kind': 'countvar', 'base': base, 'c': f'({cmp_} {sg} {nm})', 'start': [0], 'var': (nm, thr)})
     # the same scan form evaluated again under another scope (a function body is one tree evaluated several times),
     # and a condition that sets its own scope: ~name must be looked up when the condition is evaluated
     if not two and not xz:
@@ -130,6 +141,22 @@ def oracle(case, impl):
     res = impl.get('results') or []
     two = len(case['tids']) > 1
     for chk in case['checks']:
+        if chk['kind'] == 'countvar':
+            if len(res) <= chk['base']:
+                return f'session stopped at {res[-1:]} (count {chk["c"]})'
+            r = res[chk['base']]
+            if not r.startswith('ok'):
+                continue
+            try:
+                p = split_list(r)
+            except (AssertionError, IndexError) as ex:
+                return f'unparsable observation {ex!r}'
+            nm, thr = chk['var']
+            if p[0] != p[1]:
+                return f'(count {chk["c"]}) = {p[0]} but (length (find {chk["c"]})) = {p[1]} with {nm} = {thr}'
+            if p[2] != 'I%d' % thr:
+                return f'the user variable {nm} is {p[2]} after count, expected {thr}'
+            continue
         if chk['kind'] == 'rescope':
             if len(res) <= chk['base']:
                 return f'session stopped at {res[-1:]} (rescope {chk["c"]})'
